@@ -190,3 +190,19 @@ also("C17", "no function receives a lock-holding value by copy (value receivers 
 also("C18", "the helper that computes the symlink-free form maps the empty (unresolvable) name to the empty name (EvalSymlinks(\"\") modelled as (\".\", nil)); budgeted calls are on no allow list GetConf can combine with them; the handler's sets and counter are created afresh in every GetConf call (deep freshness of the returned objects); the count-down is at least 32 bits wide.")
 also("C19", "send and receive control buffers are separate allocations; a successful RecvMsg returns the count the read reported, unmodified; wire types are fully transmitted; the host's cleanup covers every exit after a non-error reply (C14.2).")
 also("C20", "control files are read to end of file (os.ReadFile/io.ReadAll), never with a single read call.")
+
+# ---- fifth pass (round-5 seeds, genuine defects F21/F22) ----
+also("C01", "Build never writes into the allow/trace lists it was given (no append to, sort of or store into a list of the policy, helpers included); SockFprog answers nil ('no filter') only for the empty filter.", "input-immutability rule followed into helpers; guard-formula validity on the nil return")
+also("C04", "the capset data buffer covers the two structs a version-3 header announces (F22); SockFprog answers nil only for the empty filter; condition formulas expand a predicate computed once into a local (boolean φ anywhere).", "type-size rule on the capset arguments")
+also("C05", "the mount builder's entries carry the caller's source/target strings unmodified (no lexical rewriting), judged on the entry as appended.")
+also("C06", "a number handed to a function that wraps it in an *os.File (which releases it on every path) is not closed by number afterwards (F21); no reinterpreted (unsafe) slice header of a caller's list is extended, copied into or stored into.", "handover/ownership summary per function; alias-then-mutate flow rule")
+also("C07", "the protocol product of C10 restricted to Execve (an abandoned launch is not released by a later message); the clone word keeps SIGCHLD as exit signal (C04.O7); errorReply.Error() returns the container's message on every path.")
+also("C08", "the container package never sets a resource limit of its own process (programs inherit what is not configured).")
+also("C10", "a transport error closes 'done' in every loop of both ends (C16.2), so later calls fail promptly.")
+also("C11", "waits name the run's own children (C17.4); no channel that is sent on is ever closed (a call in flight during Destroy cannot panic).")
+also("C12", "each end of the socket pair is released exactly once on every error path of NewSocketPair (path enumeration; handover to the wrapping constructor is a release).", "path enumeration with release counting")
+also("C15", "the tracer's deferred clean-up kills before it reaps under no condition (C12.1); bound prover: min/max builtins, search results returned only where found.")
+also("C16", "every syscall.SysProcAttr built in package container sets Pdeathsig=SIGKILL; the forkexec sync pair is born close-on-exec (C17.1).")
+also("C17", "watcher goroutines end with their run (C12.3, C11.1 watcher); every sandbox is its own session (C04.O5); the double close of F21 (via C06.9 in C19/C12/C10).")
+also("C18", "AddFilePermission, evaluated for each named permission constant, enters the name into the set of that name only (table entries resolved).", "conditional constant propagation per named constant")
+also("C19", "the framed connection is written only by its send loop and read only by its receive loop (single writer/reader: who-may-call); wrapper ownership (C06.9); ancillary composition decided by data flow from the UnixRights/UnixCredentials results to the control argument.", "who-may-call rule; backward data-flow rule")
